@@ -351,6 +351,43 @@ Proof.
   - rewrite Hcf in Ec. discriminate.
 Qed.
 
+(* the validity period check in RFC 1982 terms (C17): the signer refuses exactly
+   when the expiration is serially before the inception; a distance of exactly
+   2^31, where RFC 1982 leaves the order undefined, is accepted *)
+Lemma signer_period_is_rfc1982 k o t c ttl rrset inc exp :
+  valid_abs o -> uniform o t c ttl rrset -> rrset <> [] -> t <> 46 ->
+  inc < 4294967296 -> exp < 4294967296 ->
+  (sign_rrset k rrset inc exp = Err 2 <-> rfc_lt exp inc) /\
+  ((exists r, sign_rrset k rrset inc exp = Ok r) <-> ~ rfc_lt exp inc).
+Proof.
+  intros Hv Hu Hne Ht Hi He.
+  pose proof (signer_total k o t c ttl rrset inc exp Hv Hu Hne Hi He) as Htot.
+  destruct (cmp_is_rfc1982 exp inc He Hi) as (Hlt & _ & _).
+  destruct (sign_rrset k rrset inc exp) as [r|e| |] eqn:E.
+  - destruct Htot as [_ Hn]. split; [split; [discriminate|intros H; apply Hlt in H; contradiction]|].
+    split; [intros _ H; apply Hlt in H; contradiction|intros _; exists r; reflexivity].
+  - destruct e as [|[p|[p|p|]|]]; try (exfalso; exact Htot).
+    + (* Err 2 *) destruct Htot as [_ Hc]. apply Hlt in Hc.
+      split; [split; [intros _; exact Hc|reflexivity]|].
+      split; [intros (r & Hr); discriminate|intros H; contradiction].
+    + (* Err 1 *) contradiction.
+  - contradiction.
+  - contradiction.
+Qed.
+
+Example period_examples :
+  let rs := [mk_rr [[97]] 1 1 60 [1;2;3;4]] in
+  let k := mk_skey 15 7 [] in
+  (exists r, sign_rrset k rs 4294967040 256 = Ok r) /\          (* expiration after the wrap *)
+  sign_rrset k rs 256 4294967040 = Err 2 /\
+  (exists r, sign_rrset k rs 5 5 = Ok r) /\
+  (exists r, sign_rrset k rs 0 2147483648 = Ok r) /\             (* exactly 2^31 apart: undefined order, accepted *)
+  (exists r, sign_rrset k rs 0 2147483647 = Ok r) /\
+  sign_rrset k rs 0 2147483649 = Err 2 /\
+  rrset_new [mk_rr [] 1 1 60 []; mk_rr [] 1 1 61 []] = Panic 2 /\
+  rrset_new [mk_rr [] 46 1 60 []; mk_rr [] 46 1 61 []] = Ok [mk_rr [] 46 1 60 []; mk_rr [] 46 1 61 []].
+Proof. vm_compute. repeat split; eexists; reflexivity. Qed.
+
 (* non-vacuity: a two-record wildcard RRset, signed, then seen by a resolver
    as an expansion with other case, other order and a decremented TTL *)
 Example rebuild_example :
